@@ -70,10 +70,36 @@ def contains(container, x, st):
         if isinstance(x, VOpt): return z3.And(z3.Not(x.isnone), z3.Select(container.has, x.val.term))
         return z3.Select(container.has, x.term)
     if isinstance(container, VStr) and isinstance(x, VStr):
-        return z3.Contains(container.term, x.term)
+        return contains_(container.term, x.term)
     if isinstance(container, VRec) and isinstance(x, VStr) and z3.is_string_value(x.term):
         return z3.BoolVal(x.term.as_string() in container.fields)
     raise ToolLimit('in on %s' % type(container).__name__)
+
+
+def has_char(t, c):
+    """`c in t` for a single character c, as a regular-language membership (composes with the other class facts in the solvers);
+    distributed over concatenations and conditionals at construction time"""
+    if z3.is_string_value(t): return z3.BoolVal(c in zstr(t))
+    if z3.is_app(t) and t.decl().kind() == z3.Z3_OP_SEQ_CONCAT:
+        return z3.Or([has_char(ch, c) for ch in t.children()])
+    if z3.is_app(t) and t.decl().kind() == z3.Z3_OP_ITE:
+        cnd, a, b = t.children()
+        return z3.If(cnd, has_char(a, c), has_char(b, c))
+    return z3.Not(z3.InRe(t, z3.Star(z3.Diff(z3.AllChar(z3.ReSort(z3.StringSort())), z3.Re(c)))))
+
+
+QUANT_DEPTH = [0]        # > 0 while a quantifier body is being built: str.contains is kept there (regex memberships under binders stall e-matching)
+
+
+BRIDGE = []               # has_char(t, c) == str.contains(t, c): the two encodings of the same fact, linked propositionally
+
+
+def contains_(t, sub, quantified=False):
+    if z3.is_string_value(sub) and len(zstr(sub)) == 1 and not quantified and QUANT_DEPTH[0] == 0:
+        h = has_char(t, zstr(sub))
+        if not z3.is_string_value(t): BRIDGE.append(h == z3.Contains(t, sub))
+        return h
+    return z3.Contains(t, sub)
 
 
 def norm_index(i, n):
@@ -125,7 +151,9 @@ def index(ex, base, idx, st, node):
     if isinstance(base, VList):
         i = norm_index(idx.term, base.n)
         ex.may_raise(st, 'IndexError', node, z3.Or(i < 0, i >= base.n), z3.And(i >= 0, i < base.n), 'list index')
-        return wrap(z3.Select(base.arr, i), base.elem)
+        item = wrap(z3.Select(base.arr, i), base.elem)
+        st.pc += wf(item)
+        return item
     if isinstance(base, VRec):
         if isinstance(idx, VStr) and z3.is_string_value(idx.term):
             k = idx.term.as_string()
@@ -424,8 +452,8 @@ def call_method(ex, st, node, recv, name, args, kwargs):
         st.assume(JOIN(sep, L.arr, L.n) == recv.term)
         # the last element is empty iff the string ends with the separator (or is empty)
         st.assume((z3.Select(L.arr, L.n - 1) == z3.StringVal('')) == z3.Or(z3.SuffixOf(sep, recv.term), recv.term == z3.StringVal('')))
-        st.assume(z3.Implies(z3.Not(z3.Contains(recv.term, sep)), z3.And(L.n == 1, z3.Select(L.arr, 0) == recv.term)))
-        st.assume(z3.Implies(z3.Contains(recv.term, sep), L.n >= 2))
+        st.assume(z3.Implies(z3.Not(contains_(recv.term, sep)), z3.And(L.n == 1, z3.Select(L.arr, 0) == recv.term)))
+        st.assume(z3.Implies(contains_(recv.term, sep), L.n >= 2))
         return L, None
     if isinstance(recv, VStr) and name in ('partition', 'rpartition') and z3.is_string_value(args[0].term):
         sep = args[0].term
@@ -486,7 +514,7 @@ def call_method(ex, st, node, recv, name, args, kwargs):
         if name == 'count' and z3.is_string_value(args[0].term) and len(args[0].term.as_string()) == 1:
             f = z3.Function('str_count', z3.StringSort(), z3.StringSort(), z3.IntSort())
             r = f(t, args[0].term)
-            st.assume(r >= 0); st.assume((r == 0) == z3.Not(z3.Contains(t, args[0].term)))
+            st.assume(r >= 0); st.assume((r == 0) == z3.Not(contains_(t, args[0].term)))
             return VInt(r), None
         if name == 'replace' and len(args) == 2:
             a_, b_ = args[0].term, args[1].term
@@ -494,8 +522,8 @@ def call_method(ex, st, node, recv, name, args, kwargs):
             if z3.is_string_value(a_) and z3.is_string_value(b_) and len(zstr(a_)) == 1 and len(zstr(b_)) == 1 and zstr(a_) != zstr(b_):
                 # single-character replacement: length kept, the old character is gone, class membership follows the mapping
                 ca, cb = zstr(a_), zstr(b_)
-                st.assume(z3.Length(r) == z3.Length(t)); st.assume(z3.Not(z3.Contains(r, a_)))
-                st.assume(z3.Implies(z3.Not(z3.Contains(t, a_)), r == t))
+                st.assume(z3.Length(r) == z3.Length(t)); st.assume(z3.Not(contains_(r, a_)))
+                st.assume(z3.Implies(z3.Not(contains_(t, a_)), r == t))
                 for R in UPPER_CLOSED_CLASSES + REPLACE_CLASSES:
                     st.assume(z3.Implies(z3.InRe(t, z3.Star(R)), z3.InRe(r, z3.Star(z3.Union(z3.Diff(R, z3.Re(ca)), z3.Re(cb))))))
             return VStr(r, recv.ty), None
@@ -508,10 +536,20 @@ def call_method(ex, st, node, recv, name, args, kwargs):
         if name == 'title':
             f = z3.Function('str_title', z3.StringSort(), z3.StringSort())
             r = f(t); st.assume(z3.Length(r) == z3.Length(t)); return VStr(r, recv.ty), None
-        if name == 'splitlines' and not args:
+        if name == 'splitlines' and (not args or (z3.is_false(z3.simplify(truthy(args[0]))))):
             f = z3.Function('splitlines$arr', z3.StringSort(), z3.ArraySort(z3.IntSort(), z3.StringSort()))
             g = z3.Function('splitlines$len', z3.StringSort(), z3.IntSort())
             st.assume(g(t) >= 0)
+            st.assume((t == z3.StringVal('')) == (g(t) == 0))
+            # one clean line (no inner CR/LF, optional terminator): exactly that line without its terminator
+            nocrlf = z3.Star(z3.Diff(z3.AllChar(z3.ReSort(z3.StringSort())), z3.Union(z3.Re('\r'), z3.Re('\n'))))
+            term = z3.Option(z3.Union(z3.Re('\r\n'), z3.Re('\n'), z3.Re('\r')))
+            first = z3.Select(f(t), 0)
+            tm = z3.Function('splitlines$term', z3.StringSort(), z3.StringSort())(t)
+            st.assume(z3.Implies(z3.And(t != z3.StringVal(''), z3.InRe(t, z3.Concat(nocrlf, term))),
+                                 z3.And(g(t) == 1, t == z3.Concat(first, tm), z3.InRe(first, nocrlf), z3.InRe(tm, term))))
+            i = z3.Int(fid('i'))
+            st.assume(z3.ForAll([i], z3.Implies(z3.And(0 <= i, i < g(t)), z3.InRe(z3.Select(f(t), i), nocrlf))))
             return VList(f(t), g(t), recv.ty), None
     raise ToolLimit('method %s on %s (line %s)' % (name, type(recv).__name__, ln))
 
@@ -527,9 +565,9 @@ def cut(st, t, sep, first):
     k = 'first' if first else 'last'
     H = CUT.setdefault(k + 'h', z3.Function('cut_%s_head' % k, z3.StringSort(), z3.StringSort(), z3.StringSort()))
     T = CUT.setdefault(k + 't', z3.Function('cut_%s_tail' % k, z3.StringSort(), z3.StringSort(), z3.StringSort()))
-    has = z3.Contains(t, sep)
+    has = contains_(t, sep)
     h, tl = H(t, sep), T(t, sep)
-    st.assume(z3.Implies(has, z3.And(t == z3.Concat(h, sep, tl), z3.Not(z3.Contains(h if first else tl, sep)))))
+    st.assume(z3.Implies(has, z3.And(t == z3.Concat(h, sep, tl), z3.Not(contains_(h if first else tl, sep)))))
     if z3.is_string_value(sep) and len(sep.as_string()) == 1:
         pass
     return has, h, tl
@@ -564,6 +602,13 @@ def str_encode(ex, st, node, recv, args, kwargs):
         return VStr(z3.If(ok, t, f(t)), TBytes())
     if codec in ('utf-8', 'utf8'):
         f = ENC.setdefault('utf8', z3.Function('enc_utf8', z3.StringSort(), z3.StringSort()))
+        if z3.is_app(t) and t.decl().kind() == z3.Z3_OP_SEQ_CONCAT and not strict:
+            # the codec is a homomorphism on concatenation (errors != strict never raises); ASCII literals encode to themselves
+            outs = []
+            for ch in t.children():
+                if z3.is_string_value(ch) and all(ord(c) < 128 for c in zstr(ch)): outs.append(ch)
+                else: outs.append(str_encode(ex, st, node, VStr(ch), args, kwargs).term)
+            return VStr(z3.Concat(*outs), TBytes())
         ascii_ = z3.InRe(t, z3.Star(z3.Range(chr(0), chr(127))))
         nosur = z3.Not(z3.InRe(t, z3.Concat(z3.Star(z3.AllChar(z3.ReSort(z3.StringSort()))), z3.Range(chr(0xd800), chr(0xdfff)),
                                               z3.Star(z3.AllChar(z3.ReSort(z3.StringSort()))))))
@@ -572,6 +617,9 @@ def str_encode(ex, st, node, recv, args, kwargs):
         st.assume(z3.Implies(ascii_, r == t))
         st.assume(z3.Length(r) >= z3.Length(t))
         st.assume(z3.InRe(r, z3.Star(z3.Range(chr(0), chr(255)))))
+        for c in ('\r', '\n', '\0', ' '):
+            # UTF-8 is ASCII-transparent: an ASCII byte in the output comes from that very character in the input
+            st.assume(has_char(r, c) == has_char(t, c))
         return VStr(r, TBytes())
     # any other / symbolic codec: may raise LookupError or UnicodeEncodeError, result unconstrained bytes
     ex.may_raise(st, 'UnicodeEncodeError', node, z3.FreshBool('encfail'), z3.BoolVal(True), 'encode(?)')
@@ -747,6 +795,8 @@ def b_isinstance(ex, st, node, v, cls):
         inner = b_isinstance(ex, st, node, v.val, cls)
         return VBool(z3.And(z3.Not(v.isnone), inner.term))
     if isinstance(v, VNone): return VBool(False)
+    if isinstance(v, VTuple): return VBool('tuple' in names)
+    if isinstance(v, VList): return VBool('list' in names)
     if isinstance(v, VStr): return VBool(('str' in names and isinstance(v.ty, TStr)) or ('bytes' in names and isinstance(v.ty, TBytes)))
     if isinstance(v, VBool): return VBool('bool' in names or 'int' in names)
     if isinstance(v, VInt): return VBool('int' in names)
@@ -802,7 +852,8 @@ def b_int(ex, st, node, v, base=None):
     ok = z3.InRe(v.term, lang)
     ex.may_raise(st, 'ValueError', node, z3.Not(ok), ok, 'int() of non-numeral')
     r = fn(v.term)
-    st.assume(z3.Implies(z3.Not(z3.Contains(v.term, z3.StringVal('-'))), r >= 0))
+    st.assume(z3.Implies(z3.Not(has_char(v.term, '-')), r >= 0))
+    st.assume(z3.Implies(z3.InRe(v.term, z3.Plus(z3.Union(z3.Range('0', '9'), z3.Range('a', 'f'), z3.Range('A', 'F')))), r >= 0))
     if b == 10:
         # canonical decimal numerals: int(str(n)) == n  (digits only, no sign/space/underscore/leading zero)
         canon = z3.InRe(v.term, z3.Union(z3.Re('0'), z3.Concat(z3.Range('1', '9'), z3.Star(z3.Range('0', '9')))))
@@ -1013,7 +1064,7 @@ SPECFUNS['numeral'] = lambda ex, st, s: VBool(z3.InRe(s.term, NUMERAL))
 SPECFUNS['lower'] = lambda ex, st, s: VStr(LOWER(s.term), s.ty)
 SPECFUNS['upper'] = lambda ex, st, s: VStr(UPPER(s.term), s.ty)
 SPECFUNS['in_re'] = lambda ex, st, s, pat, fl=None: SPECFUNS['re_fullmatch'](ex, st, pat, s, fl)
-SPECFUNS['contains'] = lambda ex, st, s, t: VBool(z3.Contains(s.term, t.term))
+SPECFUNS['contains'] = lambda ex, st, s, t: VBool(contains_(s.term, t.term))
 SPECFUNS['indexof'] = lambda ex, st, s, t: VInt(z3.IndexOf(s.term, t.term, 0))
 SPECFUNS['str_of_int'] = lambda ex, st, i: VStr(int_to_str(st, i.term))
 SPECFUNS['ci_equal'] = lambda ex, st, s, lit: VBool(z3.InRe(s.term, ci_equal_re(lit.term.as_string())))
@@ -1115,7 +1166,7 @@ _contains0 = contains
 def contains(container, x, st):
     if isinstance(container, VConst): return const_contains(container, x, st)
     if isinstance(container, VCharsOf):
-        ok = z3.And(z3.Length(x.term) == 1, z3.Contains(container.term, x.term))
+        ok = z3.And(z3.Length(x.term) == 1, contains_(container.term, x.term))
         return ok
     return _contains0(container, x, st)
 
@@ -1276,8 +1327,8 @@ class VIPAddr(V):
             hexc = z3.Union(z3.Range('0', '9'), z3.Range('a', 'f'), z3.Re(':'), z3.Re('.'))
             # py >= 3.9: an optional scope id "%<anything but %>" is kept verbatim
             st.assume(z3.InRe(r, z3.Concat(z3.Plus(hexc), z3.Option(z3.Concat(z3.Re('%'), z3.Plus(z3.Diff(z3.AllChar(z3.ReSort(z3.StringSort())), z3.Re('%'))))))))
-            st.assume(z3.Implies(z3.Not(z3.Contains(self.term, z3.StringVal('%'))), z3.InRe(r, z3.Plus(hexc))))
-            st.assume(z3.Contains(r, z3.StringVal(':')))
+            st.assume(z3.Implies(z3.Not(contains_(self.term, z3.StringVal('%'))), z3.InRe(r, z3.Plus(hexc))))
+            st.assume(contains_(r, z3.StringVal(':')))
             return VStr(r)
         raise ToolLimit('ipaddress attribute %s' % name)
 
@@ -1327,9 +1378,9 @@ def m_unquote(ex, st, node, s, encoding=None, errors=None):
     enc = encoding.term if encoding is not None else z3.StringVal('utf-8')
     if encoding is not None and not z3.is_string_value(enc):
         ok = VALID_CODEC(enc)
-        ex.may_raise(st, 'LookupError', node, z3.And(z3.Not(ok), z3.Contains(s.term, z3.StringVal('%'))), z3.Or(ok, z3.Not(z3.Contains(s.term, z3.StringVal('%')))), 'unknown codec')
+        ex.may_raise(st, 'LookupError', node, z3.And(z3.Not(ok), contains_(s.term, z3.StringVal('%'))), z3.Or(ok, z3.Not(contains_(s.term, z3.StringVal('%')))), 'unknown codec')
     r = UNQUOTE(s.term, enc)
-    st.assume(z3.Implies(z3.Not(z3.Contains(s.term, z3.StringVal('%'))), r == s.term))
+    st.assume(z3.Implies(z3.Not(contains_(s.term, z3.StringVal('%'))), r == s.term))
     st.assume((s.term == z3.StringVal('')) == (r == z3.StringVal('')))
     return VStr(r)
 
